@@ -39,7 +39,7 @@ impl Property for C06 {
         "generated structured bodies (if/else-if/else chains, unless, while, do-while, times with/without clobber and constant/register counts, loop+break, free blocks, difficulty labels, time labels incl. decreasing/negative ones at block starts/ends) x both counting-jump flavours x 8 register valuations (difficulty = index mod 4); non-trivial = nesting depth >= 2 and a time label inside a nested block and at least one loop"
     }
     fn tape_len(&self, tier: Tier) -> usize { tier.pick(400, 800) }
-    fn cases(&self, tier: Tier) -> u32 { tier.pick(4000, 300000) }
+    fn cases(&self, tier: Tier) -> u32 { tier.pick(150000, 3000000) }
     fn required_labels(&self, _tier: Tier) -> Vec<&'static str> { vec!["depth>=3", "loop", "time_label_in_block", "flavor:>", "flavor:!=", "break"] }
 
     fn generate(&self, tape: &mut Tape, tier: Tier, known: &Known) -> Value {
